@@ -16,6 +16,14 @@ def only(*names):
 
 
 PROPERTIES = {
+    "C04": {
+        "harness_modules": ["contracts.c04", "contracts.c05"],
+        "level": "proof",
+        "assumptions": S_ALL + ["children of a node are pairwise distinct under (hash, ==) (validated models: no node lists a child twice)"],
+        "explanation": "All/Any/AtLeast/AtMost/Xor/XNor/Imply/Not constructors (real source) over an abstract duplicate-free child "
+                       "list with 0/1 truth values: truth function of the built node == documented connective; nesting by "
+                       "the modular argument (negate's contract from C05 for Imply/Not/XNor).",
+    },
     "C08": {
         "harness_modules": ["contracts.reduce"],
         "level": "proof",
